@@ -370,8 +370,10 @@ func parseRule(str string) rule {
 			res = append(res, values...)
 
 		case strings.HasPrefix(token, COMMENT.Tok()): // Comment
-			if idx > 0 && idx < len(tokens)-1 {
-				res[len(res)-1].comment = " " + strings.Join(tokens[idx+1:], " ")
+			if idx > 0 {
+				// With the word glued to the '#' (#aa:only apt), also when it is the only one
+				tokens[idx] = strings.TrimPrefix(token, COMMENT.Tok())
+				res[len(res)-1].comment = strings.Join(tokens[idx:], " ")
 				return res
 			}
 
